@@ -3,6 +3,7 @@ import XV.Drv.Chain
 import XV.Drv.P2p
 import XV.Drv.QcTree
 import XV.Drv.Sandbox
+import XV.Drv.SpinLock
 /-! line-protocol model driver: `xvdriver <engine> < ops.txt > model.out` -/
 def main (args : List String) : IO UInt32 := do
   match args with
@@ -11,4 +12,5 @@ def main (args : List String) : IO UInt32 := do
   | ["p2p"] => XV.Drv.P2p.run; return 0
   | ["qctree"] => XV.Drv.QcTree.run; return 0
   | ["sandbox"] => XV.Drv.Sandbox.run; return 0
+  | ["lock"] => XV.Drv.SpinLock.run; return 0
   | _ => IO.eprintln "usage: xvdriver <engine>"; return 2
